@@ -356,6 +356,47 @@ func rsRoundTrip(f *reedsolomon.GenericGF, k, r int, size int) string {
 	return fmt.Sprint(c[:4], c[k:k+2], fmt.Sprint(c) == fmt.Sprint(w))
 }
 
+// rsErrorSweep decodes every single-error pattern (position x magnitude) and every pair of
+// magnitudes at positions 1 and k+1 (every eighth value for fields above 64) of one code word.
+func rsErrorSweep(f *reedsolomon.GenericGF, k, r, size int) string {
+	w := make([]int, k+r)
+	for i := 0; i < k; i++ {
+		w[i] = (i*29 + 7) % size
+	}
+	if e := reedsolomon.NewReedSolomonEncoder(f).Encode(w, r); e != nil {
+		return errKind(e)
+	}
+	dec := reedsolomon.NewReedSolomonDecoder(f)
+	good, bad := 0, 0
+	try := func(c []int) {
+		if e := dec.Decode(c, r); e == nil && fmt.Sprint(c) == fmt.Sprint(w) {
+			good++
+		} else {
+			bad++
+		}
+	}
+	for p := 0; p < k+r; p++ {
+		for m := 1; m < size; m++ {
+			c := append([]int{}, w...)
+			c[p] ^= m
+			try(c)
+		}
+	}
+	step := 1
+	if size > 64 {
+		step = 8
+	}
+	for a := 1; a < size; a += step {
+		for b := 1; b < size; b += step {
+			c := append([]int{}, w...)
+			c[1] ^= a
+			c[k+1] ^= b
+			try(c)
+		}
+	}
+	return fmt.Sprint("restored ", good, " not restored ", bad)
+}
+
 func imax(a, b int) int {
 	if a > b {
 		return a
@@ -932,6 +973,11 @@ func all() []opLit {
 		{"rs-dm", func() string { return rsRoundTrip(reedsolomon.GenericGF_DATA_MATRIX_FIELD_256, 44, 28, 256) }},
 		{"rs-aztec12", func() string { return rsRoundTrip(reedsolomon.GenericGF_AZTEC_DATA_12, 60, 30, 4096) }},
 		{"rs-aztec-param", func() string { return rsRoundTrip(reedsolomon.GenericGF_AZTEC_PARAM, 4, 6, 16) }},
+		// every single-error pattern of one short code word (every position x every magnitude) and
+		// every error pair at two fixed positions: the decoder's intermediate polynomials take every
+		// normalisation the Euclidean algorithm can end in (leading / constant coefficient 1, ...)
+		{"rs-qr-every-single-error", func() string { return rsErrorSweep(reedsolomon.GenericGF_QR_CODE_FIELD_256, 6, 4, 256) }},
+		{"rs-aztec6-every-error-pair", func() string { return rsErrorSweep(reedsolomon.GenericGF_AZTEC_DATA_6, 6, 5, 64) }},
 		{"eci-lookup", func() string {
 			var sb strings.Builder
 			for _, n := range []string{"UTF-8", "UTF8", "Shift_JIS", "SJIS", "ISO-8859-15", "Cp437", "nope"} {
